@@ -38,10 +38,10 @@ ASSUMPTIONS = [
     'representable (exact=1), else relative 1e-9',
     'MW = m^T A (atomic masses) is a monitored hypothesis (pkg line, 1e-9 relative); mass conservation is a corollary',
     'a reaction is "balanced" when formula_array @ stoichiometry_by_mol is 0 to 1e-9 of the largest coefficient',
-    'members of a ParallelReaction/SeriesReaction are not modified after the set is built (ReactionSet shares '
-    'their stoichiometry objects but keeps its own basis label); plain Reaction members of a ReactionSystem are '
-    '(basis setter after the system was built: the system is modelled through its references)',
-    'nested ReactionSystems, KineticReaction, ReactionItem/X setters and reaction arithmetic (C17) are not modelled',
+    'a ParallelReaction/SeriesReaction is a value (it copies its members, repair 8900795); a ReactionSystem is '
+    'modelled through its references (basis setter on a member after the system was built); nested systems are '
+    'flattened by the driver (members one after the other, every level re-checks the bases)',
+    'KineticReaction, ReactionItem/X setters and reaction arithmetic (C17) are not modelled',
     'the model follows the repaired behaviour of fixes_proposed/C05-1..5 (multi-phase other-package write-back '
     '[already in /repo], phase-less reaction on a MultiStream, SparseArray argument, check_atomic_balance, '
     'remove_negligible_negative_values) rather than the code as found',
@@ -99,7 +99,7 @@ def setup():
 
 
 def budget(tier):
-    return {'quick': dict(seconds=55, cases=6400, shrink_s=12, search_s=5),
+    return {'quick': dict(seconds=55, cases=4800, shrink_s=12, search_s=5),
             'thorough': dict(seconds=480, cases=128000, shrink_s=40, search_s=20)}[tier]
 
 
@@ -239,11 +239,14 @@ class World:
                 failures.append({'signature': 'rxn:balance-check-crashes', 'op_index': i,
                                  'what': f'check_atomic_balance=True raises {type(ex).__name__} for `{payload}` '
                                          f'(phases={rxn._phases})'})
-            if chk == '1' and not bal:
+            # (the gate's documented tolerance is an absolute 1e-3 on the rescaled molar coefficients)
+            st_ = np.asarray(rxn._get_stoichiometry_by_mol().to_array(), float).reshape(-1, rxn.chemicals.size).sum(0)
+            imb = float(np.abs(rxn.chemicals.formula_array @ st_).max())
+            if chk == '1' and not bal and imb > 2e-3:
                 failures.append({'signature': 'rxn:balance-check-accepts-unbalanced', 'op_index': i,
                                  'what': f'check_atomic_balance=True accepts `{payload}` although formula_array @ '
                                          f'stoichiometry = {rxn.chemicals.formula_array @ np.asarray(rxn._get_stoichiometry_by_mol().to_array()).reshape(-1, rxn.chemicals.size).sum(0)!r}'[:400]})
-            if chk == '0' and bal:
+            if chk == '0' and bal and imb < 5e-4:
                 failures.append({'signature': 'rxn:balance-check-rejects-balanced', 'op_index': i,
                                  'what': f'check_atomic_balance=True rejects the balanced `{payload}`'})
             return self.show_rxn(rxn, PKGS[k]['chems']) + ' chk=' + chk
@@ -274,7 +277,9 @@ class World:
             objs = [e['obj'] for e in es]
             if op == 'par': o = tmo.ParallelReaction(objs)
             elif op == 'ser': o = tmo.SeriesReaction(objs)
-            else: o = tmo.ReactionSystem(*objs)
+            else:
+                kb = kv(toks, 'basis')
+                o = tmo.ReactionSystem(*objs, basis=kb) if kb else tmo.ReactionSystem(*objs)
             self.objs[name] = dict(obj=o, kind=op, members=ms, pkg=es[0]['pkg'], recipe=None,
                                    bal=all(e['bal'] for e in es))
             return 'ok'
@@ -344,8 +349,18 @@ class World:
         rchems = PKGS[e['pkg']]['chems']
         rows = [[float(x) for x in r] for r in parse_rows(kv(toks, 'rows'))]
         basis = obj._basis
-        force = kv(toks, 'mode') == 'force'
-        react = obj.force_reaction if force else obj
+        mode = kv(toks, 'mode')
+        force = mode in ('force', 'nocheck')
+        if mode == 'nocheck':
+            def react(mat, obj=obj):
+                # `__call__` with the feasibility check switched off (module flag): the force_reaction code path
+                tmo.reaction.CHECK_FEASIBILITY = False
+                try: obj(mat)
+                finally: tmo.reaction.CHECK_FEASIBILITY = True
+        else:
+            react = obj.force_reaction if force else obj
+        if mk == 'view':
+            return self.call_view(toks, i, failures, name, e, obj, rchems, rows, basis, force, react)
         sig0 = f'{e["kind"]}/{"force-" if force else ""}{mk}'
         def fail(clause, what):
             # layout-type clauses are named after the material, the others after the kind of object
@@ -438,6 +453,63 @@ class World:
                     mass=(mass_b, mass_a), other=other, force=force, rchems=rchems)
         return 'out=' + frows(after)
 
+    def call_view(self, toks, i, failures, name, e, obj, rchems, rows, basis, force, react):
+        """the material is a flow array that is a *view* of a stream of the reaction's own package:
+        stream.mol / imol.data, stream.mass / imass.data (DictionaryView: reacted copy written back through it),
+        or the mol / mass of one phase of a MultiStream"""
+        sel = kv(toks, 'sel'); ph = kv(toks, 'ph'); own = kv(toks, 'own', ph)
+        k = e['pkg']
+        sig0 = f'{e["kind"]}/{"force-" if force else ""}view-{sel}{"-phase" if own != ph else ""}/{basis}'
+        def fail(clause, what):
+            if clause in ('layout-corrupt', 'call-has-no-effect', 'view-other-phase-changed'):
+                sig = f'view-{sel}:{clause}'
+            elif force: sig = 'force:' + clause
+            else: sig = e['kind'] + ':' + clause
+            if not any(f['op_index'] == i for f in failures):
+                failures.append({'signature': sig, 'op_index': i, 'what': f'[{sig0}] {what}'})
+        own_sorted = ''.join(sorted(own))
+        if own == ph:
+            owner_rows = rows
+        else:
+            owner_rows = [rows[0] for _ in own_sorted]          # the other phases hold the same flows
+        s = self.make_stream(k, own_sorted, owner_rows)
+        which = hash(len(toks[-1])) & 1
+        if own != ph:
+            sub = s[ph]
+            mat = sub.mol if sel == 'mol' else sub.mass
+            vidx = [own_sorted.index(ph)]
+        elif len(own_sorted) == 1:
+            mat = (s.mol if which else s.imol.data) if sel == 'mol' else (s.mass if which else s.imass.data)
+            vidx = [0]
+        else:
+            mat = s.imol.data if sel == 'mol' else s.imass.data
+            vidx = list(range(len(own_sorted)))
+        all_b = self.stream_rows(s).copy()
+        MW = rchems.MW
+        try:
+            react(mat)
+        except Exception as ex:
+            ec = err_class(ex)
+            vb = all_b[vidx]
+            if ec == 'BasisMix' and self.mixed_basis(e):
+                pass
+            elif ec == 'Infeasible' and not force:
+                self.check_raise(obj, e, vb * MW if sel == 'mass' else vb, ec, fail, rchems, basis, array=True)
+            else:
+                fail('unexpected-exception', f'{type(ex).__name__}: {str(ex)[:120]} — on a view of a stream of the '
+                                             f"object's own package")
+            return 'err=' + ec
+        all_a = self.stream_rows(s)
+        rest = [j for j in range(all_b.shape[0]) if j not in vidx]
+        if rest and (all_a[rest] != all_b[rest]).any():
+            fail('view-other-phase-changed', 'reacting the flows of one phase changed another phase of the stream')
+        mol_b, mol_a = all_b[vidx], all_a[vidx]
+        raw_b = mol_b * MW if sel == 'mass' else mol_b
+        raw_a = mol_a * MW if sel == 'mass' else mol_a
+        if (sel == 'mass') == (basis == 'wt'):
+            self.oracle(obj, e, name, rchems, mol_b, mol_a, raw_b, raw_a, fail, basis, stream=None, force=force)
+        return 'out=' + frows(mol_a)
+
     @staticmethod
     def to_package(rows, src, dst):
         """rows laid out by Chemicals `src` moved to the layout of `dst` (by CAS); None if a non-zero flow has no place"""
@@ -466,8 +538,18 @@ class World:
     def mixed_basis(self, e):
         """a ReactionSystem one of whose member Reaction objects has been switched to another basis since"""
         if e['kind'] != 'sys': return False
-        obj = e['obj']
-        return any(self.objs[m]['obj']._basis != obj._basis for m in e['members'] if m in self.objs)
+        b = e['obj']._basis
+        def plain_bases(entry):
+            out = []
+            for m in entry['members']:
+                me = self.objs[m]
+                if me['kind'] == 'single': out.append(me['obj']._basis)
+                elif me['kind'] == 'sys': out.append(me['obj']._basis); out.extend(plain_bases(me))
+            return out
+        try:
+            return any(x != b for x in plain_bases(e))
+        except NoRef:
+            return False
 
     def expected_delta(self, obj, vals):
         """feed + what the real `conversion` reports (real code, array path), in the object's own layout"""
@@ -585,8 +667,12 @@ class World:
                 nr = vals_b[ri]
                 intent = self.meta.get('intent', {}).get(e.get('alias', name))
                 d = vals_a - vals_b
-                if intent is not None and basis == intent['basis']:
+                if intent is not None:
                     c = np.array([[float(F(x)) for x in r] for r in intent['nu']], float)
+                    # the definition, expressed in the basis the object has now (real molecular weights)
+                    MWr = obj.chemicals.MW
+                    if basis == 'wt' and intent['basis'] == 'mol': c = c * MWr
+                    elif basis == 'mol' and intent['basis'] == 'wt': c = c / MWr
                     cr = c[ri]
                     if cr != 0:
                         expd = nr * X * c / (-cr)
@@ -603,7 +689,10 @@ class World:
             # 4. parallel: every member from the feed; series/system: each on the running composition
             elif e['kind'] in ('par', 'ser', 'sys'):
                 try:
-                    members = [self.objs[m]['obj'] for m in e['members']]
+                    if e['kind'] == 'sys':
+                        members = [self.objs[m]['obj'] for m in e['members']]      # held by reference
+                    else:
+                        members = list(obj)        # the set's own items (it copied the reactions it was built from)
                     if e['kind'] == 'par':
                         exp = vals_b + sum(self.expected_delta(m, vals_b) for m in members)
                     else:
@@ -637,7 +726,7 @@ class World:
                 k, ph, rows = stream
                 s2 = self.make_stream(k, ph, rows)
                 try:
-                    (tw.force_reaction if force else tw)(s2)
+                    (tw.force_reaction if force else tw)(s2)       # (nocheck: the same code path)
                 except Exception as ex:
                     if err_class(ex) != 'Infeasible' or mol_a.min() > 1e-9 * scale:
                         fail('basis-disagree', f'the {tw._basis}-basis version raises {type(ex).__name__} '
@@ -668,11 +757,16 @@ def run_impl(case: Case) -> ImplResult:
         tags.add(toks[0] if toks[0] != 'call' else 'call:' + toks[2])
         if toks[0] == 'call':
             if kv(toks, 'mode') == 'force': tags.add('call:force')
+            if kv(toks, 'mode') == 'nocheck': tags.add('call:nocheck')
+            if toks[2] == 'view':
+                tags.add(f'call:view-{kv(toks, "sel")}' + ('-phase' if kv(toks, 'own') else ''))
+            if toks[1] in W.objs and any(W.objs[m]['kind'] == 'sys' for m in W.objs[toks[1]]['members'] if m in W.objs):
+                tags.add('call:nested-system')
             if toks[1] in W.objs and W.objs[toks[1]]['kind'] == 'sys' and W.mixed_basis(W.objs[toks[1]]):
                 tags.add('call:sys-after-member-basis-change')
             if toks[2] == 'arr':
                 tags.add(f'call:arr-{kv(toks, "as", "nd")}{"2d" if ";" in kv(toks, "rows", "") else "1d"}')
-            else:
+            elif toks[2] == 'stream':
                 if len(kv(toks, 'ph', 'l')) > 1: tags.add('call:stream-multi')
                 e_ = W.objs.get(toks[1]) if toks[1] in W.objs else None
                 if e_ is not None:
@@ -683,6 +777,7 @@ def run_impl(case: Case) -> ImplResult:
             if any(v.get('alias') == toks[1] for v in W.objs.values()): tags.add('call:on-original-of-copy')
         elif toks[0] == 'rxn':
             tags.add('def:' + kv(toks, 'def'))
+            if kv(toks, 'basis') == 'wt': tags.add('def:on-weight-basis')
             if kv(toks, 'r') == 'auto': tags.add('reactant:auto')
         if o.startswith('err='): tags.add(o)
         if toks[0] == 'call' and o.startswith('out='):
@@ -904,7 +999,7 @@ def render_str(rng, d, names_of, phase_of=None):
     return plus.join(left) + arrow + plus.join(right)
 
 
-def gen_rxn(rng, name, k, phases, intent_out, force_basis=None, exact_bias=False, bad=None):
+def gen_rxn(rng, name, k, phases, intent_out, force_basis=None, exact_bias=False, bad=None, define_wt=False):
     """returns list of op lines defining reaction `name` on package k.
     `bad` (malformed stream only): 'noreactant' | 'auto-many' | 'phase-kw' | 'x-out'"""
     ids = PKGS[k]['ids']
@@ -971,7 +1066,24 @@ def gen_rxn(rng, name, k, phases, intent_out, force_basis=None, exact_bias=False
         row = pt.index(phase_of[u]) if phase_of else 0
         nu[row][ids.index(u)] = F(float(c))
     intent_out[name] = {'nu': [[str(x) for x in r] for r in nu], 'basis': 'mol'}
-    if basis == 'wt':
+    if basis == 'wt' and define_wt:
+        # DEFINED on the weight basis: the constructor gets mass coefficients ν_j·MW_j and basis='wt'
+        MW = PKGS[k]['chems'].MW
+        dw = {u: F(float(c) * float(MW[ids.index(u)])) for u, c in d.items()}
+        if dk == 'str': payload = render_str(rng, dw, names_of, phase_of)
+        elif dk == 'xdict':
+            payload = ','.join(f'{rng.choice(names_of(u))}:{phase_of[u]}:{frac(float(c))}' for u, c in dw.items())
+        else:
+            payload = ','.join(f'{rng.choice(names_of(u))}:{frac(float(c))}' for u, c in dw.items())
+        ops = [f'rxn {name} pkg={k} basis=wt X={frac(float(X))} r={"auto" if auto else U[ru].ID} '
+               f'phases={phases_kw} def={dk} | {payload}']
+        nuw = [[F(0)] * len(ids) for _ in range(nrows)]
+        for u, c in dw.items():
+            row = pt.index(phase_of[u]) if phase_of else 0
+            nuw[row][ids.index(u)] = c
+        intent_out[name] = {'nu': [[str(x) for x in r] for r in nuw], 'basis': 'wt',
+                            'plan': [[str(x) for x in r] for r in nu]}
+    elif basis == 'wt':
         ops.append(f'setbasis {name} wt')
         if rng.random() < 0.1:
             ops.append(f'setbasis {name} mol'); ops.append(f'setbasis {name} wt')
@@ -1000,8 +1112,12 @@ def gen_flows(rng, npkg, nrows, want, small=False):
 
 # ---- generator-side bookkeeping (exact, on the intended stoichiometry): which feeds a plan can digest
 
+def _molar(intent, name):
+    return intent[name].get('plan', intent[name]['nu'])
+
+
 def _plan_rxn(intent, name, ru, X, rids, nrows):
-    nu = [F(c) for row in intent[name]['nu'][:nrows] for c in row]
+    nu = [F(c) for row in _molar(intent, name)[:nrows] for c in row]
     n = len(rids)
     pos = [i for i, c in enumerate(nu) if c != 0 and rids[i % n] == ru]
     if not pos: return None
@@ -1054,7 +1170,7 @@ def gen_case(rng):
     rk = rng.choice([0, 0, 0, 0, 1, 2, 4])
     basis = 'wt' if rng.random() < 0.3 else 'mol'
     shape = rng.choices(['single', 'par', 'ser', 'sys'], [40, 20, 20, 20])[0]
-    if mal == 'late-basis': shape = 'sys'
+    if mal == 'late-basis': shape = rng.choice(['sys', 'sys', 'par', 'ser'])
     exact_bias = rng.random() < 0.6
     used_pkgs = [rk]
     nrx = 1 if shape == 'single' else rng.choice([1, 2, 2, 3, 3, 4])
@@ -1063,6 +1179,7 @@ def gen_case(rng):
     names = []
     pts = []
     origs = []
+    used_names = []          # the reaction objects that are members of the target (copies, not their originals)
     via_copy = rng.random() < 0.3
     def new_rxn(force_basis):
         name = f'r{len(names)}'
@@ -1076,9 +1193,12 @@ def gen_case(rng):
             body.append(f'copybasis {name}c {name} {force_basis or "mol"} how={rng.choice(["copy", "copy", "setter"])}')
             body.append(f'show {name}')
             origs.append((name, pt))
+            used_names.append(name + 'c')
             return name + 'c', len(defs) - 1
-        o, d, ru, X, pt = gen_rxn(rng, name, rk, phases, intent, force_basis, exact_bias, bad)
+        o, d, ru, X, pt = gen_rxn(rng, name, rk, phases, intent, force_basis, exact_bias, bad,
+                                  define_wt=(force_basis == 'wt' and rng.random() < 0.35))
         body.extend(o); defs.append((name, d, ru, X)); pts.append(pt)
+        used_names.append(name)
         return name, len(defs) - 1
     target = None
     if shape == 'single':
@@ -1089,6 +1209,10 @@ def gen_case(rng):
         target = 'p0' if shape == 'par' else 's0'
         body.append(f'{shape} {target} {",".join(m for m, _ in ms)}')
         plan = (shape, [i for _, i in ms])
+        if mal == 'late-basis':
+            # a set is independent of later changes to the reactions it was built from
+            late = rng.choice(ms)[0]
+            late_ops = [f'setbasis {late} {"mol" if basis == "wt" else "wt"}']
     else:
         members, nodes = [], []
         budget_rx = rng.choice([2, 3, 4])
@@ -1107,13 +1231,24 @@ def gen_case(rng):
         if mal == 'late-basis' and not any(k == 'single' for k, _ in nodes):
             m, i0 = new_rxn(basis)
             members.append(m); nodes.append(('single', i0))
+        kwb = f' basis={basis}' if rng.random() < 0.15 else ''
+        if len(members) >= 2 and rng.random() < 0.25:
+            # a system inside a system
+            cut = rng.randrange(1, len(members))
+            body.append(f'sys yin {",".join(members[:cut])}')
+            members = ['yin'] + members[cut:]
+            nodes = [('sys', nodes[:cut])] + nodes[cut:]
         target = 'y0'
-        body.append(f'sys {target} {",".join(members)}')
+        body.append(f'sys {target} {",".join(members)}{kwb}')
         plan = ('sys', nodes)
         if mal == 'late-basis':
             # the system keeps references: a member Reaction is switched to the other basis after the system
             # was built (→ the system must refuse to run), sometimes switched back (→ it runs again)
             singles = [m for m, (k, _) in zip(members, nodes) if k == 'single']
+            if not singles or rng.random() < 0.3:
+                # a reaction inside a member set (or inside the inner system): plain members of a system, at
+                # any depth, make it refuse; sets are unaffected
+                singles = list(used_names)
             late = rng.choice(singles)
             other_b = 'mol' if basis == 'wt' else 'wt'
             late_ops = [f'setbasis {late} {other_b}']
@@ -1155,7 +1290,7 @@ def gen_case(rng):
         # flows in the reaction package first, moved to the stream package afterwards
         want = []
         for (name, d, ru, X) in defs:
-            nu = intent[name]['nu']
+            nu = _molar(intent, name)
             for i, row in enumerate(nu):
                 for j, c in enumerate(row):
                     if F(c) < 0 or rids[j] == ru: want.append((i, j))
@@ -1186,9 +1321,24 @@ def gen_case(rng):
             if all(abs(x) < 2**40 for x in feed):
                 base = [[float(x) for x in feed[i * n:(i + 1) * n]] for i in range(nrows)]
         # move to the stream's package / phase layout
-        mode = ' mode=force' if rng.random() < 0.12 else ''
-        if mk == 'arr':
+        mode = rng.choices(['', ' mode=force', ' mode=nocheck'], [80, 12, 8])[0]
+        if mk == 'arr' and rng.random() < 0.4 and not mal:
+            # the array is a view of a stream of the reaction's package: stream.mol / stream.mass /
+            # imol.data / imass.data / the flows of one phase of a MultiStream
+            sel = 'mass' if basis == 'wt' else 'mol'
+            if phases:
+                calls.append(f'call {target} view sel={sel} ph={"".join(sorted(phases))}{mode} rows={frows(base)}')
+            elif rng.random() < 0.35:
+                own = rng.choice(PHASE_SETS)
+                calls.append(f'call {target} view sel={sel} ph={rng.choice(own)} own={own}{mode} rows={frows(base)}')
+            else:
+                calls.append(f'call {target} view sel={sel} ph={rng.choice("lgs")}{mode} rows={frows(base)}')
+        elif mk == 'arr':
             how = 'sp' if rng.random() < 0.25 else 'nd'
+            if basis == 'wt' and not mal:
+                # an array handed to a weight-basis object holds masses
+                MWr = [float(x) for x in PKGS[rk]['chems'].MW]
+                base = [[x * m for x, m in zip(row, MWr)] for row in base]
             calls.append(f'call {target} arr as={how}{mode} rows={frows(base)}')
         else:
             rows = [[0.0] * len(sids) for _ in range(n_srows)]
@@ -1209,12 +1359,13 @@ def gen_case(rng):
             same = [o for o, pt in origs if pt == pts[0]]
             if same:
                 calls = calls + [calls[0].replace(f'call {target} ', f'call {rng.choice(same)} ', 1)]
-    if mal == 'late-basis' and shape == 'sys':
+    if mal == 'late-basis':
         # use the system, switch a member, use it again (refused), maybe switch back and use it once more
         first = calls[:1] if rng.random() < 0.5 else []
         tail = ([f'setbasis {late} {basis}'] + [c for c in calls if c.startswith(f'call {target} ')][:1]) \
             if rng.random() < 0.4 else []
-        calls = first + late_ops + [f'call {late} ' + calls[0].split(' ', 2)[2]] + calls + tail
+        alone = [f'call {late} ' + c.split(' ', 2)[2] for c in calls if ' view ' not in c and ' arr ' not in c][:1]
+        calls = first + late_ops + alone + calls + tail
     ops = [f'pkg {k}' for k in used_pkgs] + body + extra + calls
     meta = {'intent': intent}
     if mal: meta['malformed'] = mal
